@@ -32,14 +32,15 @@ KEYS = {
     'k4': ('v4u', '10.0.1.0/24 path-information 0.0.0.2'),  # second path of k1's prefix (ADD-PATH)
     'k5': ('v6u', '2001:db8:5::/48'),
     'k6': ('v4u', '10.0.1.0/24 path-information 0.0.0.1'),  # with k4: two explicit ADD-PATH paths of one prefix
+    'k7': ('v4l', '10.0.7.0/24'),  # labeled unicast: x and y differ in the label only (the label is payload, not identity)
 }
 ATTRS = {
-    'x': {'v4u': 'next-hop 192.0.2.1 med 10', 'v6u': 'next-hop 2001:db8::1 med 10'},
-    'y': {'v4u': 'next-hop 192.0.2.1 med 20 community [ 65000:1 ]', 'v6u': 'next-hop 2001:db8::1 med 20 community [ 65000:1 ]'},
-    'z': {'v4u': 'next-hop 192.0.2.9 med 10', 'v6u': 'next-hop 2001:db8::9 med 10'},
+    'x': {'v4u': 'next-hop 192.0.2.1 med 10', 'v6u': 'next-hop 2001:db8::1 med 10', 'v4l': 'next-hop 192.0.2.1 med 10 label [ 100 ]'},
+    'y': {'v4u': 'next-hop 192.0.2.1 med 20 community [ 65000:1 ]', 'v6u': 'next-hop 2001:db8::1 med 20 community [ 65000:1 ]', 'v4l': 'next-hop 192.0.2.1 med 10 label [ 200 ]'},
+    'z': {'v4u': 'next-hop 192.0.2.9 med 10', 'v6u': 'next-hop 2001:db8::9 med 10', 'v4l': 'next-hop 192.0.2.9 med 10 label [ 100 ]'},
 }
-FAMS = {'v4u': (AFI.ipv4, SAFI.unicast), 'v6u': (AFI.ipv6, SAFI.unicast)}
-FAMNAME = {(1, 1): 'v4u', (2, 1): 'v6u'}
+FAMS = {'v4u': (AFI.ipv4, SAFI.unicast), 'v6u': (AFI.ipv6, SAFI.unicast), 'v4l': (AFI.ipv4, SAFI.nlri_mpls)}
+FAMNAME = {(1, 1): 'v4u', (2, 1): 'v6u', (1, 4): 'v4l'}
 
 CONF = """
 neighbor 127.0.0.2 {
@@ -52,6 +53,7 @@ neighbor 127.0.0.2 {
   capability { add-path send/receive; route-refresh enable; }
 }
 """
+CONF_LABELED = CONF.replace('ipv4 unicast; ipv6 unicast;', 'ipv4 unicast; ipv4 nlri-mpls;')     # the session of the labeled key k7
 
 
 def make_negotiated(neighbor):
@@ -77,11 +79,14 @@ class RibWorld:
             self.neighbor = neighbor
         self.rib = self.neighbor.rib.outgoing
         self.neg = make_negotiated(self.neighbor)
-        self.addpath = {(1, 1): bool(self.neg.addpath.send(AFI.ipv4, SAFI.unicast)), (2, 1): bool(self.neg.addpath.send(AFI.ipv6, SAFI.unicast))}
+        self.addpath = {(1, 1): bool(self.neg.addpath.send(AFI.ipv4, SAFI.unicast)), (2, 1): bool(self.neg.addpath.send(AFI.ipv6, SAFI.unicast)), (1, 4): bool(self.neg.addpath.send(AFI.ipv4, SAFI.nlri_mpls))}
         self._routes: dict = {}
         self._keyof: dict = {}
         self._attrof: dict = {}
-        for k, (fam, ktext) in KEYS.items():
+        negotiated = {(int(a), int(s)) for a, s in self.neighbor.families()}
+        self.keys = [k for k, (fam, _) in KEYS.items() if (int(FAMS[fam][0]), int(FAMS[fam][1])) in negotiated]
+        for k in self.keys:
+            fam = KEYS[k][0]
             for a, per in ATTRS.items():
                 r = self.route(k, a)
                 dec = self._encode_one(r)
@@ -90,7 +95,7 @@ class RibWorld:
                 assert self._keyof.setdefault(wk, k) == k, 'key table not injective'
                 sig = (fam, wire.attr_signature(dec))
                 assert self._attrof.setdefault(sig, a) == a, 'attr table not injective'
-        assert len(self._keyof) == len(KEYS)
+        assert len(self._keyof) == len(self.keys)
         self.gen = None
         self._names = {}
         if fresh_rib:
@@ -130,7 +135,7 @@ class RibWorld:
 
     # -- projection -----------------------------------------------------------------------
     def _name_route(self, route) -> tuple:
-        memo = (route.index(), route.attributes.index(), str(route.nexthop))
+        memo = (route.index(), route.attributes.index(), str(route.nexthop), bytes(route.nlri.pack_nlri(self.neg)))   # the label is not in the index
         if memo not in self._names:
             self._names[memo] = self._name_route_slow(route)
         return self._names[memo]
@@ -150,7 +155,7 @@ class RibWorld:
         return self._keyof.get(wk, '?' + repr(wk))
 
     def cache_table(self) -> dict:
-        cache = {k: 'none' for k in KEYS}
+        cache = {k: 'none' for k in self.keys}
         for r in self.neighbor.rib.outgoing.cached_routes():
             k, a = self._name_route(r)
             cache[k] = a
@@ -169,11 +174,11 @@ class RibWorld:
 
     def project(self) -> dict:
         cache = self.cache_table()
-        queued = {k: 'none' for k in KEYS}
+        queued = {k: 'none' for k in self.keys}
         for r in self.rib.queued_routes():
             k, a = self._name_route(r)
             queued[k] = a
-        peer = {k: self.peer.get(k, 'none') for k in KEYS}
+        peer = {k: self.peer.get(k, 'none') for k in self.keys}
         return {'cache': cache, 'queued': queued, 'pending': bool(self.rib.pending()), 'live': self.live, 'peer': peer, 'up': self.up}
 
     def _abstract(self, item) -> dict:
